@@ -28,7 +28,7 @@ LEVEL = "exploration"
 RULE = (
     "C07's multi-account histories with one overdraft injected at a random debit (depth in {1e-11, 9e-11, 2e-10, 1e-9, 3}, "
     "optionally refilled later = transient), row numbers permuted so that sheet order != chronological order, "
-    "same-instant buy+sell on one account, x both values of allow_negative_balances x methods; a quarter of the cases carry "
+    "same-instant buy+sell on one account, disposals whose fee was paid in fiat (crypto fee 0), x both values of allow_negative_balances x methods; a quarter of the cases carry "
     "no overdraft (must be accepted), an eighth of them with a debit appended that empties the destination of a transfer at the "
     "transfer's own timestamp (never negative in time, covered only by the same-instant credit). Oracle: verdict from the rows; accepted runs are compared with the "
     "model's final balances. Non-trivial = a decided overdraft whose final balance is >= 0 (transient), or dust depth, or "
@@ -41,7 +41,7 @@ ASSUMPTIONS = [
 ]
 RULE += e2e.RULE_SUFFIX
 
-CFG = gen.GenCfg(min_steps=3, max_steps=14, max_exchanges=3, max_holders=2, tie_prob=0.35)
+CFG = gen.GenCfg(min_steps=3, max_steps=14, max_exchanges=3, max_holders=2, tie_prob=0.35, fiat_only_out_fee=True)
 
 
 def budget(tier: str) -> Dict[str, Any]:
